@@ -632,7 +632,7 @@ def gen_program(rng, meta, length=None):
     parts = list(meta["particles"])
     univs = list(meta["universes"]) or []
     ops = []
-    fresh = [n for n in range(41, 60)]
+    fresh = [n for n in range(41, 120) if n not in cells][:19]
     rng.shuffle(fresh)
     deleted_vol = set()
     n_ops = length if length is not None else rng.choice([0, 1, 1, 2, 2, 3, 4, 5])
@@ -736,7 +736,7 @@ def targeted_programs(rng, meta):
     parts = list(meta["particles"])
     univs = list(meta["universes"])
     out = []
-    new = 60
+    new = max(cells + [60]) + 1
     app = [["N", new]] + [["I", "s", q, rng.choice(["2", "0.5", "4"])] for q in parts] + [["V", "s", rng.choice(VOL_CHOICES)]]
     if univs:
         app += [["U", "s", univs[0]]]
